@@ -1703,6 +1703,105 @@ type c17Session struct {
 	// Excluded counts the uses of a defect-triggering shape the generator
 	// declined because the probes found that defect in the tree under test.
 	Excluded map[string]int
+	// TwinOf[f] = t: file f starts with a copy (under another package name) of
+	// the leading package segment of file t — two files written after one
+	// template, so their definitions sit at the same line and column.
+	TwinOf map[int]int
+}
+
+// c17TwinSrc is a leading package segment that can serve as a template: the
+// forms files[file][:nforms] introduced package pkg, whose model state at the
+// end of the segment is snap.
+type c17TwinSrc struct {
+	file   int
+	pkg    string
+	nforms int
+	snap   *c17Pkg
+	copies int
+}
+
+func (p *c17Pkg) cloneAs(name string, file int) *c17Pkg {
+	q := &c17Pkg{name: name, defs: map[string]*c17Glob{}, imports: map[string]*c17Glob{}, used: map[string]bool{},
+		usedBuiltin: map[string]bool{}, hidden: map[string]bool{}, exportFiles: map[int]bool{}}
+	for _, gl := range p.order {
+		c := *gl
+		c.pkg, c.file = name, file
+		c.keys = append([]string(nil), gl.keys...)
+		c.free = append([]string(nil), gl.free...)
+		q.order = append(q.order, &c)
+		if p.defs[gl.name] == gl {
+			q.defs[gl.name] = &c
+		}
+	}
+	for n, gl := range p.imports {
+		q.imports[n] = gl
+	}
+	q.exports = append([]string(nil), p.exports...)
+	for n := range p.used {
+		q.used[n] = true
+	}
+	for n := range p.usedBuiltin {
+		q.usedBuiltin[n] = true
+	}
+	for n := range p.hidden {
+		q.hidden[n] = true
+	}
+	if len(p.exportFiles) > 0 {
+		q.exportFiles[file] = true
+	}
+	return q
+}
+
+// c17RenamePkg respells package from as to in a copied form: the argument of
+// in-package and every from:name qualifier.
+func c17RenamePkg(n *c17N, from, to string) {
+	if n.isAtom() {
+		if len(n.A) > 0 && n.A[0] != '"' && n.A[0] != ':' {
+			if p, b := c17SplitQual(n.A); p == from {
+				n.A = to + ":" + b
+			}
+		}
+		return
+	}
+	if n.head() == "in-package" && len(n.L) == 2 && n.L[1].isAtom() {
+		switch n.L[1].A {
+		case from:
+			n.L[1].A = to
+		case strconv.Quote(from):
+			n.L[1].A = strconv.Quote(to)
+		}
+		return
+	}
+	for _, x := range n.L {
+		c17RenamePkg(x, from, to)
+	}
+}
+
+// emitTwin starts file f with a copy of a template segment under a new package
+// name and gives the generator's model the copied package, so that later code
+// (also in further files) refers to its definitions like to any other.
+func (g *c17Gen) emitTwin(f int, src *c17TwinSrc) string {
+	src.copies++
+	name := src.pkg + "-" + string(rune('a'+src.copies))
+	p := src.snap.cloneAs(name, f)
+	g.pkgs[name] = p
+	g.pkgOrder = append(g.pkgOrder, name)
+	for _, gl := range p.order {
+		g.allGlobs = append(g.allGlobs, gl)
+	}
+	for qn := range p.used {
+		if q := g.pkgs[qn]; q != nil {
+			q.frozen = true
+		}
+	}
+	for _, form := range g.files[src.file][:src.nforms] {
+		c := form.clone()
+		c17RenamePkg(c, src.pkg, name)
+		g.emit(f, c)
+	}
+	g.curPkg[f] = name
+	g.tag("twin-file")
+	return name
 }
 
 func c17Generate(seed uint64, on map[string]bool, kwOK bool, avoid map[string]bool) *c17Session {
@@ -1741,6 +1840,12 @@ func c17Generate(seed uint64, on map[string]bool, kwOK bool, avoid map[string]bo
 		pkgChoices = append(pkgChoices, perm[:np]...)
 	}
 	depth := 2 + rs.intn(2)
+	// "twin files": drawn from a stream of its own, so that sessions without a
+	// twin are exactly the ones generated without this family
+	tw := c17NewRng(seed ^ 0x7477696e66696c65)
+	twinsOn := nfiles > 1 && g.has("packages") && tw.chance(1, 2)
+	var twinSrcs []*c17TwinSrc
+	twinOf := map[int]int{}
 	for f := 0; f < nfiles; f++ {
 		g.curFile = f
 		if f > 0 && g.avoid["D10"] {
@@ -1755,6 +1860,11 @@ func c17Generate(seed uint64, on map[string]bool, kwOK bool, avoid map[string]bo
 				pk.imports = map[string]*c17Glob{}
 			}
 		}
+		if twinsOn && len(twinSrcs) > 0 && tw.chance(2, 3) {
+			src := c17Pick(tw, twinSrcs)
+			pkgChoices = append(pkgChoices, g.emitTwin(f, src))
+			twinOf[f] = src.file
+		}
 		nseg := rs.rng(1, 3)
 		if !g.has("packages") {
 			nseg = 1
@@ -1762,11 +1872,16 @@ func c17Generate(seed uint64, on map[string]bool, kwOK bool, avoid map[string]bo
 		for s := 0; s < nseg; s++ {
 			pn := c17Pick(rs, pkgChoices)
 			ur := root.fork()
+			fresh := g.pkgs[pn] == nil && len(g.files[f]) == 0
 			g.inPackage(f, pn, ur)
 			p := g.pkg(pn)
 			nunits := ur.rng(1, 4)
 			for u := 0; u < nunits; u++ {
 				g.unit(f, p, depth, ur.fork())
+			}
+			if fresh && twinsOn {
+				// the segment that introduced package pn opens this file: a template
+				twinSrcs = append(twinSrcs, &c17TwinSrc{file: f, pkg: pn, nforms: len(g.files[f]), snap: p.cloneAs(pn, f)})
 			}
 		}
 	}
@@ -1793,10 +1908,8 @@ func c17Generate(seed uint64, on map[string]bool, kwOK bool, avoid map[string]bo
 	if g.has("forward-ref") {
 		g.swapDefuns(root.fork())
 	}
-	s := &c17Session{Files: g.files, Used: g.used, KwOK: kwOK, NPkgs: len(g.pkgOrder), Excluded: g.excluded}
-	for i := range g.files {
-		s.Paths = append(s.Paths, fmt.Sprintf("f%d.lisp", i+1))
-	}
+	s := &c17Session{Files: g.files, Used: g.used, KwOK: kwOK, NPkgs: len(g.pkgOrder), Excluded: g.excluded, TwinOf: twinOf}
+	s.Paths = c17FlatPaths(len(g.files))
 	for n := range g.names {
 		s.Names = append(s.Names, n)
 	}
